@@ -356,7 +356,12 @@ func flushRealOp(a []string) string {
 				stop = true
 			case <-time.After(2 * time.Millisecond):
 				if executor.VerifHaveWALWriter() {
-					go in.wf.RequestFlush()
+					// a real write: it queues a command and therefore a flush request whatever
+					// shortcuts RequestFlush may have
+					go func() {
+						defer func() { recover() }()
+						in.runStoreStep(flushRowStep(63))
+					}()
 				}
 			}
 		}
